@@ -221,7 +221,7 @@ func runC03(c *eng.Ctx) {
 		c.Guard("GUARD-verify", "id-match", fn, eng.Entry(fn), rets, eng.PassEdges(fn, idEq), "success only when the tombstone record's id equals the index key")
 		c.ErrChecked("ERR-verify", "ReadData", fn, eng.Find(fn, eng.PlainCallTo("needle.Needle).ReadData")), "a failed tombstone read fails the verification")
 	}
-	c.Expect("GUARD-verify", 4)
+	c.Expect("GUARD-verify", 6)
 	if fn := c.NeedFunc("weed/storage", "doCheckAndFixVolumeData"); fn != nil {
 		vs := eng.Find(fn, eng.PlainCallTo("weed/storage.verifyNeedleIntegrity", "weed/storage.verifyDeletedNeedleIntegrity"))
 		if len(vs) < 2 {
@@ -229,6 +229,26 @@ func runC03(c *eng.Ctx) {
 		}
 		c.ErrChecked("ERR-verify", "verify", fn, vs, "verification errors are returned")
 		c.ErrChecked("ERR-verify", "readIndexEntry", fn, eng.Find(fn, eng.PlainCallTo("weed/storage.readIndexEntryAtOffset")), "index read errors are returned")
+		// only a tombstone entry (negative size) is verified as "the last record of the data file"; an entry of an
+		// empty blob (size 0) is a live record and is located by its offset, which is what cuts a torn tail behind it
+		tomb := func(cond ssa.Value) (bool, bool) {
+			if b, ok := cond.(*ssa.BinOp); ok && isZero(b.Y) && eng.MentionsCall(b.X, "idx.IdxFileEntry") {
+				switch b.Op {
+				case token.LSS:
+					return true, true
+				case token.GEQ:
+					return true, false
+				}
+			}
+			if call, ok := cond.(*ssa.Call); ok && eng.CalleeIs(call, "types.Size).IsDeleted") && eng.MentionsCall(call.Call.Args[0], "idx.IdxFileEntry") {
+				return true, true
+			}
+			return false, false
+		}
+		del := eng.Find(fn, eng.PlainCallTo("weed/storage.verifyDeletedNeedleIntegrity"))
+		live := eng.Find(fn, eng.PlainCallTo("weed/storage.verifyNeedleIntegrity"))
+		c.Guard("GUARD-verify", "tombstone-check-only-for-negative-size", fn, eng.Entry(fn), del, eng.PassEdges(fn, tomb), "the end-of-file tombstone verification is used only for entries with a negative size")
+		c.Guard("GUARD-verify", "offset-check-for-other-sizes", fn, eng.Entry(fn), live, eng.FailEdges(fn, tomb), "entries with size >= 0 (empty blobs included) are verified at their offset")
 	}
 
 	// (4b) the torn tail is cut at the END of the last indexed record
